@@ -34,7 +34,7 @@ View == << pending, snd, steps, nfaults, res, sent, run >>
 NoTecmp(b) == << >>
 D == INSTANCE Decoder WITH TecmpDecode <- NoTecmp
 
-AllEndpoints == << << 1, 1 >>, << 1, 2 >>, << 2, 1 >> >>      \* same device / other stream, other device / same stream
+AllEndpoints == << << 3, 2 >>, << 3, 3 >>, << 259, 2 >> >>     \* same device / other stream; 3: coincides with 2 under dev | st << 8, with 1 under dev % 256
 E == 1..NEndpoints
 Ep(i) == AllEndpoints[i]
 
